@@ -867,6 +867,18 @@ func (s *Server) SetHidden(resource string, hidden bool) {
 	}
 }
 
+// SetHasStatus switches the status subresource of a resource on or off (a CRD that gains
+// `subresources.status` later); discovery and request handling follow at once.
+func (s *Server) SetHasStatus(resource string, on bool) {
+	s.mu.Lock()
+	defer s.mu.Unlock()
+	for _, d := range s.defs {
+		if d.Resource == resource {
+			d.HasStatus = on
+		}
+	}
+}
+
 func (s *Server) discoveryResponse(req *http.Request, pp *parsedPath) *http.Response {
 	switch pp.discovery {
 	case "api":
